@@ -9,18 +9,47 @@ position x parameter vectors from a hostile value pool x histories over an LRU p
      one-shot binder, on a prepared statement shared by all executions of its text, on the liaison's
      cached path and on the real bydbQLService.Query; oracle = the spec's verdict + the real transformer
      applied to the spec's literalised statement (proto.Equal) + the spec's shape.
-  B  histories over <= MaxStmts statements with cache capacity 1 and 2, with and without a byte bound:
+  B  histories over <= 3 statements with cache capacity 1 and 2 (and 0), with and without a byte bound:
      TLC exhaustive (VIEW hides `last`), every edge of the state graph + deep -simulate behaviours are
      replayed; after every step the cache verdict, LRU order, byte count and evicted set must be the
      spec's, templates must be unchanged and every earlier (stmt, params) must still give its request.
   W  random wide statements (up to 8 placeholders) with random vectors (TLC -simulate, RandomElement).
 """
-import json, os, re, sys, hashlib, random
+import json, os, re, sys, random
 from multiprocessing import Pool
 sys.path.insert(0, '/verif/tools')
 from vf import core, tlc, tla
 
 INVARIANTS = ['RejectIffInvalid', 'ShapePreserved', 'NoLeak', 'CacheClean', 'CacheBounded']
+
+# ------------------------------------------------------------------ statements of the cache histories (B)
+PH, NONE = {'t': 'ph'}, {'t': 'absent'}
+
+
+def S(v):
+    return {'t': 'str', 'v': v}
+
+
+def I(v):
+    return {'t': 'int', 'v': v}
+
+
+def stmt(kind, top=NONE, time=('none', []), conds=(), join='AND', order='none', l=NONE, f=NONE):
+    return {'kind': kind, 'top': top, 'time': {'op': time[0], 'args': list(time[1])},
+            'w': {'conds': [{'tag': t, 'op': o, 'args': list(a)} for t, o, a in conds], 'join': join}, 'order': order, 'lo': {'l': l, 'f': f}}
+
+
+TEMPLATES = [
+    stmt('stream', conds=[('s', '=', [PH])], l=PH),
+    stmt('measure', top=PH, time=('>', [PH]), conds=[('i', 'IN', [PH, I('3')])]),
+    stmt('topn', top=PH, conds=[('s', '=', [PH])]),
+    stmt('property', conds=[('s', 'IN', [PH])], l=I('7')),
+    stmt('trace', time=('between', [PH, PH]), conds=[('s', '!=', [PH]), ('i', '>', [PH])], join='OR'),
+    stmt('stream', conds=[('s', '=', [PH])]),                      # its text is a prefix of the first one
+    stmt('measure', conds=[('s', 'IN', [PH, PH])], order='DESC', l=PH, f=PH),
+    stmt('stream', time=('=', [PH]), conds=[('i', '=', [PH])], l=PH, f=I('3')),
+]
+LITERAL = stmt('stream', conds=[('s', '=', [S('lit')])])          # no placeholder: bypasses the cache
 
 
 # ------------------------------------------------------------------ helpers (TLA+ text <-> python)
@@ -39,10 +68,10 @@ def to_tla(v):
     raise TypeError(v)
 
 
-def cfg_text(consts, view=True, vectors=None):
-    t = 'SPECIFICATION Spec\nCONSTANTS\n Stmts <- MCStmts\n Values <- MCValues\n Paths <- MCPaths\n Cost <- MCCost\n'
-    if vectors:
-        t += ' Vectors <- %s\n' % vectors
+def cfg_text(consts, view=True, spec='Spec', overrides=()):
+    t = 'SPECIFICATION %s\nCONSTANTS\n Stmts <- MCStmts\n Values <- MCValues\n Paths <- MCPaths\n Cost <- MCCost\n' % spec
+    for a, b in overrides:
+        t += ' %s <- %s\n' % (a, b)
     for k in ('CacheSize', 'MaxBytes', 'MaxExec', 'MaxStmts', 'FullUpTo'):
         t += ' %s = %d\n' % (k, consts[k])
     t += 'INVARIANTS\n' + ''.join(' %s\n' % i for i in INVARIANTS)
@@ -56,12 +85,43 @@ def mc_module(stmts, values, paths, cost='1', extra=''):
             % (stmts, values, paths, cost, extra))
 
 
+# A: the enumeration of the grammar is split over many initial states (TLC expands one state per worker)
+A_EXTRA = '''
+InScope(s) == %(filter)s
+MCParts == { [kind |-> k, order |-> o, join |-> j] : k \\in Kinds, o \\in {"none", "DESC"}, j \\in {"AND", "OR"} }
+MCInitA == /\\ cache = <<>> /\\ evicted = <<>> /\\ hist = {} /\\ n = 0
+           /\\ \\E pt \\in MCParts : last = [op |-> "init", part |-> pt]
+MCNextA == /\\ n < MaxExec
+           /\\ \\E s \\in RawGrammar :
+                 /\\ s.kind = last.part.kind /\\ s.order = last.part.order /\\ s.w.join = last.part.join
+                 /\\ WellFormed(s) /\\ InScope(s)
+                 /\\ \\E path \\in Paths : \\E p \\in Vectors(s) : Execute(s, p, path)
+MCSpecA == MCInitA /\\ [][MCNextA]_vars
+'''
+
+# B: few vectors per statement (valid baseline, one hostile value in each slot, no parameters)
+B_EXTRA = '''
+MCVectors(s) == LET b == BaseVector(s) IN {b, <<>>} \\cup { [b EXCEPT ![i] = v] : i \\in 1..Len(b), v \\in MCValues }
+ASSUME MCStmts \\subseteq Grammar
+'''
+
+# W: random statements of the whole grammar with random vectors (-simulate only)
+W_EXTRA = '''
+RandStmt == Norm([kind |-> RandomElement(Kinds), top |-> RandomElement(Tops), time |-> RandomElement(TimeForms),
+                  w |-> RandomElement(Wheres({"AND", "OR"})), order |-> RandomElement({"none", "DESC"}), lo |-> RandomElement(LimOffs)])
+RandVector(s) == [i \\in 1..NumSlots(s) |-> IF RandomElement(1..4) = 1 THEN RandomElement(Values) ELSE Base(Slots(s)[i], i)]
+MCNextW == /\\ n < MaxExec
+           /\\ \\E s \\in {RandStmt} \\cup Used : \\E p \\in {RandVector(s)} : \\E path \\in Paths : Execute(s, p, path)
+MCSpecW == Init /\\ [][MCNextW]_vars
+'''
+
+
 def _parse_chunk(args):
     """worker: state texts -> behaviour json lines (init + one execution), keeping hist and last only"""
     first, chunks = args
     out = []
-    for k, c in enumerate(chunks):
-        st = tla.parse_state(c)
+    for k, ch in enumerate(chunks):
+        st = tla.parse_state(ch)
         if st['last'].get('op') != 'exec':
             continue
         out.append(json.dumps({'id': first + k, 'states': [{'last': {'op': 'init'}}, {'hist': st['hist'], 'last': st['last']}]}))
@@ -86,9 +146,14 @@ def dump_to_behaviours(dump_path, out_path):
 def read_behaviour(path, bid):
     with open(path) as f:
         for line in f:
-            if ('"id": %d,' % bid) in line[:40]:
+            if line.startswith('{"id": %d,' % bid):
                 return json.loads(line)
     return None
+
+
+def nslots(s):
+    leaves = [s['top']] + s['time']['args'] + [a for cd in s['w']['conds'] for a in cd['args']] + [s['lo']['l'], s['lo']['f']]
+    return sum(1 for x in leaves if x.get('t') == 'ph')
 
 
 def main():
@@ -108,11 +173,7 @@ def main():
         c.finish()
 
     tot = dict(states=0, transitions=0, behaviours=0, steps=0)
-    stats = {}
-    samples = []
-    action_cov = {}
-    seen_sigs = set()
-    all_runs = []
+    stats, samples, seen_sigs, runs = {}, [], set(), []
 
     def absorb(res):
         for k, v in res['stats'].items():
@@ -142,23 +203,26 @@ def main():
                 c.inconclusive('%s: violation %s not reproduced' % (what, v['signature']))
             c.report(v['signature'], v['detail'], {'behaviour': states[: v['step'] + 1], 'harness': 'c20', 'harness_args': hargs})
 
+    def need_ok(r, what):
+        if not r.ok:
+            tlc.cleanup(r)
+            c.inconclusive('TLC on Bydbql.tla (%s): violated=%s error=%s timeout=%s\n%s' % (what, r.violated, r.error, r.timed_out, r.output[-2000:]))
+
     # ================================================================ A: every single execution
     if c.quick:
-        a_filter = '(NumSlots(s) = 1 /\\ LitClauses(s) <= 1) \\/ (NumSlots(s) = 2 /\\ LitClauses(s) = 0)'
+        a_filter = ('(NumSlots(s) = 1 /\\ LitClauses(s) <= 1) \\/ (NumSlots(s) = 2 /\\ LitClauses(s) = 0 /\\ s.order = "none")')
         a_values = ('{ v \\in AllValues : CASE v.t = "str" -> v.v \\in {"a\' OR \'1\'=\'1", "x -- c", "/* c */", "a,b", "", "SELECT", "?", '
                     '"back\\\\slash\\\\\'q", "7", "2026-02-03T04:05:06Z", "b1"} '
                     '[] v.t = "int" -> v.v \\in {"-1", "0", "7", "i32max", "i32max+1", "u32max", "u32max+1", "i64max"} [] OTHER -> TRUE }')
     else:
-        a_filter = ('(NumSlots(s) = 1) \\/ (NumSlots(s) = 2 /\\ LitClauses(s) <= 1) \\/ (NumSlots(s) = 3 /\\ LitClauses(s) = 0)')
+        a_filter = '(NumSlots(s) = 1) \\/ (NumSlots(s) = 2 /\\ LitClauses(s) <= 1) \\/ (NumSlots(s) = 3 /\\ LitClauses(s) = 0)'
         a_values = 'AllValues'
     a_consts = dict(CacheSize=1, MaxBytes=0, MaxExec=1, MaxStmts=1, FullUpTo=1)
-    a_files = {'MC.tla': mc_module('{ s \\in Grammar : %s }' % a_filter, a_values, '{"oneshot"}'),
-               'a.cfg': cfg_text(a_consts, view=False)}
-    ra = tlc.run('MC.tla', 'a.cfg', tag='c20a', files=a_files, extra=['-dump', 'states'], keep=True,
-                 timeout=600 if c.quick else 1500, heap='8g')
-    if not ra.ok:
-        tlc.cleanup(ra)
-        c.inconclusive('TLC on Bydbql.tla (single executions): violated=%s error=%s timeout=%s\n%s' % (ra.violated, ra.error, ra.timed_out, ra.output[-1500:]))
+    a_files = {'MC.tla': mc_module('{}', a_values, '{"oneshot"}', extra=A_EXTRA % {'filter': a_filter}),
+               'a.cfg': cfg_text(a_consts, view=False, spec='MCSpecA')}
+    ra = tlc.run('MC.tla', 'a.cfg', tag='c20a', files=a_files, extra=['-dump', 'states'], keep=True, workers=16,
+                 timeout=600 if c.quick else 2400, heap='12g')
+    need_ok(ra, 'A, single executions')
     c.log('TLC A (single executions): %d states, invariants hold (%.1fs)' % (ra.distinct, ra.wall))
     tot['states'] += ra.distinct
     tot['transitions'] += ra.generated
@@ -166,23 +230,25 @@ def main():
     os.makedirs(os.path.dirname(fa), exist_ok=True)
     na = dump_to_behaviours(os.path.join(ra.workdir, 'states.dump'), fa)
     tlc.cleanup(ra)
-    if na != ra.distinct - 1:
-        c.inconclusive('state dump has %d executions, TLC reported %d states' % (na, ra.distinct))
     c.log('A: %d executions exported' % na)
-    res_a = c.run_harness(binp, ['-mode', 'replay', '-in', fa, '-shared'], timeout=1500)
+    if na == 0 or na > ra.distinct:
+        c.inconclusive('state dump has %d executions, TLC reported %d states' % (na, ra.distinct))
+    res_a = c.run_harness(binp, ['-mode', 'replay', '-in', fa, '-shared'], timeout=2400)
     absorb(res_a)
     handle(res_a, lambda bid: read_behaviour(fa, bid), ['-shared'], 'A')
-    c.log('A: replayed %d executions (%s)' % (res_a['steps'], ', '.join('%s=%d' % kv for kv in sorted(res_a['stats'].items()))))
-    a_programs = na
+    c.log('A: replayed %d executions' % res_a['steps'])
+    runs.append(dict(part='A', filter=a_filter, states=ra.distinct, executions=na, tlc_s=round(ra.wall, 1)))
 
-    # binding self-test 1: flip one expected verdict and one literal -> the harness must object
+    # binding self-test: corrupt the expected verdict / one literal / the shape -> the harness must object
     selftest = {}
     probe = None
     with open(fa) as f:
         for line in f:
+            if '"rej": "no"' not in line or '"t": "str"' not in line:
+                continue
             b = json.loads(line)
             h = b['states'][1]['hist'][0]
-            if h['out']['rej'] == 'no' and any(p.get('t') == 'str' for p in h['params']) and h['stmt']['w']['conds']:
+            if h['out']['rej'] == 'no' and h['params'] and all(p.get('t') == 'str' for p in h['params']) and h['stmt']['w']['conds']:
                 probe = b
                 break
     os.remove(fa)
@@ -191,23 +257,148 @@ def main():
     m1 = json.loads(json.dumps(probe))
     m1['states'][1]['hist'][0]['out'] = {'rej': 'bind'}
     m2 = json.loads(json.dumps(probe))
-    lit = m2['states'][1]['hist'][0]['out']['lit']
-    for cond in lit['w']['conds']:
+    for cond in m2['states'][1]['hist'][0]['out']['lit']['w']['conds']:
         for a in cond['args']:
             if a.get('t') == 'str':
                 a['v'] = a['v'] + "' OR s = 'x"
     m3 = json.loads(json.dumps(probe))
     m3['states'][1]['hist'][0]['out']['shape']['where'] = m3['states'][1]['hist'][0]['out']['shape']['where'] + [{'tag': 's', 'op': '='}]
     for name, mb in (('flipped_verdict', m1), ('corrupted_literal', m2), ('corrupted_shape', m3)):
-        fm = c.write_behaviours('selftest', [mb])
+        fm = c.write_behaviours('selftest', [mb['states']])
         rm = c.run_harness(binp, ['-mode', 'replay', '-in', fm, '-shared'])
         os.remove(fm)
         selftest[name] = bool(rm['violations'])
-    if not all(selftest.values()):
-        c.inconclusive('binding self-test failed: a corrupted expectation was accepted: %s' % selftest)
 
-    c.cov.update(states=tot['states'], transitions=tot['transitions'], programs=a_programs, disagreements_checked=tot['steps'],
-                 samples=samples, harness_stats=stats, binding_selftest_rejected=all(selftest.values()), binding_selftest=selftest)
+    # ================================================================ B: histories over the prepared cache
+    nsel = 1 if c.quick else 3
+    b_values = '{StrL("a\' OR \'1\'=\'1")}'
+    nontriv = 0
+    b_behaviours = 0
+    action_cov = {}
+    for sel in range(nsel):
+        chosen = rnd.sample(TEMPLATES, 3) + [LITERAL]
+        fc = os.path.join(core.BUILD, 'beh', 'C20-cost-%d.json' % os.getpid())
+        json.dump(chosen, open(fc, 'w'))
+        rc = c.run_harness(binp, ['-mode', 'cost', '-in', fc])
+        os.remove(fc)
+        if rc.get('inconclusive') or len(rc['samples']) != len(chosen):
+            c.inconclusive('cost probe failed: %s' % rc.get('inconclusive'))
+        costs = [x['cost'] for x in rc['samples']]
+        tc = sorted(costs[:3])
+        # byte bounds: m1 lets the two cheapest templates share the cache but not the two dearest;
+        # m2 makes the dearest template uncacheable
+        m1b, m2b = tc[1] + tc[2] - 1, tc[2] - 1
+        cost_fn = 'CASE ' + ' [] '.join('s = %s -> %d' % (to_tla(s), k) for s, k in zip(chosen, costs))
+        stm = '{' + ', '.join(to_tla(s) for s in chosen) + '}'
+        configs = [(1, 0), (2, m1b)] if c.quick else [(1, 0), (2, 0), (2, m1b), (2, m2b), (1, m2b), (0, 0)]
+        for (size, mb) in configs:
+            depth_g = 3 if c.quick else 4
+            consts = dict(CacheSize=size, MaxBytes=mb, MaxExec=depth_g, MaxStmts=3, FullUpTo=0)
+            files = {'MC.tla': mc_module(stm, b_values, '{"oneshot", "cached"}', cost=cost_fn, extra=B_EXTRA)}
+            hargs = ['-cachesize', str(size), '-maxbytes', str(mb)]
+            tag = 'B sel=%d size=%d maxbytes=%d' % (sel, size, mb)
+            # exhaustive with the history variable hidden (deeper), thorough tier also with action coverage
+            e_consts = dict(consts, MaxExec=depth_g + 1)
+            re_ = tlc.run('MC.tla', 'e.cfg', tag='c20e', files=dict(files, **{'e.cfg': cfg_text(e_consts, view=True, overrides=[('Vectors', 'MCVectors')])}),
+                          coverage=not c.quick, workers=16, timeout=1200, heap='8g')
+            need_ok(re_, tag + ' exhaustive')
+            tot['states'] += re_.distinct
+            tot['transitions'] += re_.generated
+            for k, v in (re_.coverage or {}).items():
+                action_cov[k] = action_cov.get(k, 0) + v
+            # state graph (last visible): every transition becomes an implementation step
+            rg = tlc.run('MC.tla', 'g.cfg', tag='c20g', files=dict(files, **{'g.cfg': cfg_text(consts, view=False, overrides=[('Vectors', 'MCVectors')])}),
+                         dump=True, workers=16, timeout=1200, heap='8g')
+            need_ok(rg, tag + ' graph')
+            nodes, edges, inits = tlc.graph(rg)
+            behs, uncovered = tlc.cover_edges(nodes, edges, inits, max_len=depth_g + 1)
+            tlc.cleanup(rg)
+            # deep random histories
+            s_consts = dict(consts, MaxExec=10)
+            rs = tlc.run('MC.tla', 's.cfg', tag='c20s', files=dict(files, **{'s.cfg': cfg_text(s_consts, view=False, overrides=[('Vectors', 'MCVectors')])}),
+                         simulate={'num': 150 if c.quick else 1500}, depth=11, seed=c.seed + sel, timeout=900)
+            if not rs.ok:
+                tlc.cleanup(rs)
+                c.inconclusive('TLC -simulate (%s) failed: %s\n%s' % (tag, rs.error or rs.violated, rs.output[-1500:]))
+            sb = tlc.sim_behaviours(rs)
+            tlc.cleanup(rs)
+            allb = behs + sb
+            fb = c.write_behaviours('B', allb)
+            res_b = c.run_harness(binp, ['-mode', 'replay', '-in', fb] + hargs, timeout=1500)
+            os.remove(fb)
+            absorb(res_b)
+            handle(res_b, lambda bid: allb[bid], hargs, tag)
+            b_behaviours += len(allb)
+            nontriv += core.nontrivial_count(allb, lambda st: any(x['last'].get('cres') in ('reparse',) for x in st[1:])
+                                             or (any(x['last'].get('cres') == 'hit' for x in st[1:]) and len(st[-1]['evicted']) > 0))
+            c.log('%s: costs=%s exhaustive %d states (%.1fs); graph %d states %d edges -> %d behaviours (uncovered %d) + %d simulated; replayed %d steps'
+                  % (tag, costs, re_.distinct, re_.wall, len(nodes), len(edges), len(behs), uncovered, len(sb), res_b['steps']))
+            runs.append(dict(part='B', selection=sel, cache_size=size, max_bytes=mb, costs=costs, exhaustive_states=re_.distinct, exhaustive_depth=depth_g + 1,
+                             graph_states=len(nodes), graph_edges=len(edges), graph_edges_uncovered=uncovered, edge_cover_behaviours=len(behs),
+                             simulated=len(sb), steps=res_b['steps']))
+            # self-test 2 (once): a wrong cache verdict in the expectation must be noticed
+            if 'corrupted_cache_verdict' not in selftest:
+                mut = None
+                for bb in allb:
+                    st = bb['states'] if isinstance(bb, dict) else bb
+                    if any(x['last'].get('cres') == 'hit' for x in st[1:]):
+                        mut = json.loads(json.dumps(st))
+                        for x in mut[1:]:
+                            if x['last'].get('cres') == 'hit':
+                                x['last']['cres'] = 'miss'
+                                break
+                        break
+                if mut is not None:
+                    fm = c.write_behaviours('selftest', [mut])
+                    rm = c.run_harness(binp, ['-mode', 'replay', '-in', fm] + hargs)
+                    os.remove(fm)
+                    selftest['corrupted_cache_verdict'] = any(v['signature'].startswith('cache-verdict') for v in rm['violations'])
+
+    # ================================================================ W: random wide statements and vectors
+    w_consts = dict(CacheSize=2, MaxBytes=0, MaxExec=6, MaxStmts=6, FullUpTo=0)
+    files = {'MC.tla': mc_module('{}', a_values, '{"oneshot", "cached"}', extra=W_EXTRA),
+             'w.cfg': cfg_text(w_consts, view=False, spec='MCSpecW')}
+    rw = tlc.run('MC.tla', 'w.cfg', tag='c20w', files=files, simulate={'num': 400 if c.quick else 6000}, depth=7, seed=c.seed, timeout=1200)
+    if not rw.ok:
+        tlc.cleanup(rw)
+        c.inconclusive('TLC -simulate (wide) failed: %s\n%s' % (rw.error or rw.violated, rw.output[-1500:]))
+    wb = tlc.sim_behaviours(rw)
+    tlc.cleanup(rw)
+    fw = c.write_behaviours('W', wb)
+    hargs = ['-cachesize', '2', '-maxbytes', '0']
+    res_w = c.run_harness(binp, ['-mode', 'replay', '-in', fw] + hargs, timeout=1500)
+    os.remove(fw)
+    absorb(res_w)
+    handle(res_w, lambda bid: wb[bid], hargs, 'W')
+    wide = [nslots(x['last']['stmt']) for b in wb for x in b[1:]]
+    c.log('W: %d random histories, %d executions, placeholders per statement max %d mean %.1f'
+          % (len(wb), res_w['steps'], max(wide or [0]), sum(wide) / max(1, len(wide))))
+    runs.append(dict(part='W', histories=len(wb), executions=res_w['steps'], max_placeholders=max(wide or [0])))
+
+    if not all(selftest.values()) or len(selftest) < 4:
+        c.inconclusive('binding self-test failed: a corrupted expectation was accepted (or could not be built): %s' % selftest)
+
+    c.cov.update(
+        states=tot['states'], transitions=tot['transitions'],
+        programs=na + b_behaviours + len(wb), disagreements_checked=tot['steps'],
+        executions_per_path={k: v for k, v in stats.items() if k.startswith('executions_')},
+        behaviours_replayed=tot['behaviours'], steps_replayed=tot['steps'], evaluations=tot['steps'], distinct_nontrivial=nontriv,
+        rule='programs = single executions of part A (one per TLC state) + cache histories of part B (edge cover of the state graph and -simulate) + '
+             'random wide histories of part W; disagreements_checked = executions compared with the spec and with the literalised statement on every '
+             'code path; non-trivial = a cache history containing a re-parse, or a hit after an eviction; distinct by full state sequence',
+        exhaustive=all(r.get('graph_edges_uncovered', 0) == 0 for r in runs),
+        harness_stats=stats, runs=runs, action_coverage=action_cov, binding_selftest_rejected=all(selftest.values()), binding_selftest=selftest,
+        samples=samples,
+    )
+    c.assumptions += [
+        'the text of a statement is produced by harness/pkg/c20 render() for both the parameterised and the literalised record (single definition); '
+        'it is the trusted definition of a properly quoted literal: single quotes, backslash-escaped \\ and \'',
+        'integers and timestamps are tokens in the spec and concretised by the harness (i32max = 2147483647, u32max = 4294967295, ...)',
+        'relative times / now are excluded (absolute RFC3339 only); the wall-clock end of an open TIME > range is masked on both sides',
+        'the accounted byte cost of a statement is read from the code (len(text) + EstimatedSize) and given to the spec as Cost; the evicted-hash set is modelled without collisions',
+        'schema: tags s (string), i (int), field f; one group; property queries without ID conditions; MATCH / HAVING are outside the bounded grammar',
+        'part A: statements with %s; full value pool in every slot of 1-placeholder statements, one slot varied against a valid distinct baseline otherwise, plus missing/surplus vectors' % a_filter,
+    ]
     c.finish()
 
 
